@@ -43,14 +43,12 @@ impl<C: BlsSignatureImpl> SignDecryptionShare<C> {
     pub fn verify(&self, pks: &PublicKeyShare<C>, sig: &SignCryptCiphertext<C>) -> BlsResult<()> {
         let share = self.0.as_group_element::<<C as Pairing>::PublicKey>()?;
         let pk = pks.0.as_group_element::<<C as Pairing>::PublicKey>()?;
-        if <C as BlsSignCrypt>::verify_share(
-            share,
-            pk,
-            sig.u,
-            &sig.v,
-            sig.w,
-            <C as BlsSignatureBasic>::DST,
-        )
+        let dst = match sig.scheme {
+            SignatureSchemes::Basic => <C as BlsSignatureBasic>::DST,
+            SignatureSchemes::MessageAugmentation => <C as BlsSignatureMessageAugmentation>::DST,
+            SignatureSchemes::ProofOfPossession => <C as BlsSignaturePop>::SIG_DST,
+        };
+        if <C as BlsSignCrypt>::verify_share(share, pk, sig.u, &sig.v, sig.w, dst)
         .into()
         {
             Ok(())
